@@ -93,6 +93,22 @@ def run(tier, seed):
         if out.shape != (d, rep):
             findings.append(Finding("C14", f"generate({rep}) returned shape {out.shape}, expected ({d}, {rep})", {"kind": "generate-shape", "classes": sorted(node.kinds())},
                                     {"stimulus": stim}))
+        if node.kind == "composite" and out.shape == (d, rep):
+            # the draws of a product density: block k of generate() is a draw of part k - the blocks in their order, every block written,
+            # also when one and the same object stands for several blocks
+            gseed = rnd.randrange(1 << 30)
+            try:
+                with np.errstate(all="ignore"), quiet():
+                    whole = np.array(node.obj.generate(rep, rng=np.random.default_rng(gseed)), dtype=float)
+                    g2 = np.random.default_rng(gseed)
+                    blocks = np.vstack([np.array(c.obj.generate(rep, rng=g2), dtype=float) for c in node.children])
+                if whole.shape != blocks.shape or not np.array_equal(whole, blocks, equal_nan=True):
+                    rows_bad = [i for i in range(min(len(whole), len(blocks))) if not np.array_equal(whole[i], blocks[i], equal_nan=True)]
+                    findings.append(Finding("C14", f"CompositeDistribution.generate({rep}): rows {rows_bad[:6]} are not the draws of the parts in their blocks"
+                                            + (" (one object stands for several blocks)" if len({id(c.obj) for c in node.children}) < len(node.children) else ""),
+                                            {"kind": "generate-blocks"}, {"stimulus": stim, "generator_seed": gseed}))
+            except Exception:
+                pass
         reqs.append(f"c14.generate {node.proto} {rep} {vhex(nz)} {vhex(us)}")
         metas.append((stim, out, len(nz) - len(rng.normals), len(us) - len(rng.uniforms)))
     for (stim, out, used_n, used_u), ans in zip(metas, lean_batch(reqs)):
